@@ -4,13 +4,13 @@ CONSTANTS
   NPar = 1
   ErFrom = 2
   TocFrom = 2
-  NAtt = 3
-  MaxFaults = 2
+  NAtt = 2
+  MaxFaults = 1
   FaultBy <- LinkFaults
   MaxPings = 1
   UseSync = FALSE
   Closer = FALSE
-  Defects <- Repaired
+  Defects <- Bug_updDoubleRelease
 INVARIANT HistoryOK
 INVARIANT QuietOK
 INVARIANT ReconnectOK
